@@ -4,6 +4,7 @@ import (
 	"bytes"
 	"crypto/tls"
 	"crypto/x509"
+	"encoding/pem"
 	"fmt"
 	"net"
 	"strings"
@@ -30,7 +31,7 @@ func init() {
 		Phases: func(tier string, seed int64) []Phase {
 			return []Phase{{Name: "gating", Run: c18Run}, {Name: "testdirectory-mtls", Run: c18Directory}}
 		},
-		MinObserved: []string{"offending_connections", "conforming_ops_verified", "tls13_no_cert_requests_in_flight", "directory_offending_connections", "stranger_certificates_prepared"},
+		MinObserved: []string{"offending_connections", "conforming_ops_verified", "tls13_no_cert_requests_in_flight", "directory_offending_connections", "stranger_certificates_prepared", "conforming_clients_served_next_to_abandoned_handshakes"},
 	})
 }
 
@@ -178,8 +179,33 @@ func c18Behaviours(mtls bool, pki *PKI, postOp string) []c18Behaviour {
 			c18Behaviour{"foreign-ca-certificate", postOp, c18TLSThenBind(with(pki.ForeignCli), postOp)},
 			c18Behaviour{"expired-certificate", postOp, c18TLSThenBind(with(pki.ExpiredCli), postOp)},
 		)
+		// a foreign leaf (whose key the client holds) followed by certificates the configured CA did issue (public
+		// material anybody can get: the server's own certificate, a legitimate client's certificate)
+		for i, extra := range [][]byte{firstDER(pki.Server), firstDER(pki.Client)} {
+			if extra == nil || len(pki.ForeignCli.Certificate) == 0 {
+				continue
+			}
+			chain := pki.ForeignCli
+			chain.Certificate = [][]byte{pki.ForeignCli.Certificate[0], extra}
+			chain.Leaf = nil
+			out = append(out, c18Behaviour{[]string{"foreign-leaf-followed-by-the-servers-certificate", "foreign-leaf-followed-by-a-legitimate-client-certificate"}[i], postOp, c18TLSThenBind(with(chain), postOp)})
+		}
 	}
 	return out
+}
+
+func firstDER(c tls.Certificate) []byte {
+	if len(c.Certificate) == 0 {
+		return nil
+	}
+	return c.Certificate[0]
+}
+
+func pemDER(p string) []byte {
+	if b, _ := pem.Decode([]byte(p)); b != nil {
+		return b.Bytes
+	}
+	return nil
 }
 
 func c18Run(c *Ctx) {
@@ -252,6 +278,52 @@ func c18Run(c *Ctx) {
 			}
 		}
 		owg.Wait()
+		// handshakes that are begun and then simply left open (no byte, a record header, half a ClientHello): they may
+		// cost their own connection, nobody else's - a conforming client arriving meanwhile is served (bounded
+		// progress, own bound of 10s)
+		for round := 0; round < c.N(2, 10); round++ {
+			var stalled []net.Conn
+			for k := 0; k < 3; k++ {
+				if cn, err := net.DialTimeout("tcp", srv.Addr, 5*time.Second); err == nil {
+					switch k {
+					case 1:
+						cn.Write([]byte{0x16, 0x03, 0x01, 0x02, 0x00})
+					case 2:
+						cn.Write([]byte{0x16, 0x03, 0x01, 0x00, 0xc8, 0x01, 0x00, 0x00, 0xc4, 0x03, 0x03})
+					}
+					stalled = append(stalled, cn)
+				}
+			}
+			time.Sleep(3 * time.Millisecond)
+			served := make(chan error, 1)
+			go func() {
+				cl, err := dialRaw(srv.Addr, ctc)
+				if err != nil {
+					served <- err
+					return
+				}
+				defer cl.Close()
+				cl.Send(sber.Message(9, sber.BindRequest(3, []byte(fmt.Sprintf("conforming-%s-next-to-stalled-%d", cfgName, round)), []byte("p")), nil).Encode())
+				m, err := cl.ReadMsg(patience)
+				if err == nil && (m.ID != 9 || m.Op.Tag != sber.AppBindResponse) {
+					err = fmt.Errorf("unexpected answer")
+				}
+				served <- err
+			}()
+			select {
+			case err := <-served:
+				if err != nil {
+					c.Violate("a conforming TLS client was not served", fmt.Sprintf("%s, with %d abandoned handshakes held open: %v", cfgName, len(stalled), err), nil)
+				} else {
+					c.Count("conforming_clients_served_next_to_abandoned_handshakes", 1)
+				}
+			case <-time.After(10 * time.Second):
+				c.Violate("a conforming TLS client was not served", fmt.Sprintf("%s: %d peers hold abandoned handshakes open and a conforming client that connected meanwhile is not served within 10s", cfgName, len(stalled)), nil)
+			}
+			for _, cn := range stalled {
+				cn.Close()
+			}
+		}
 		stop.Store(true)
 		bwg.Wait()
 		// quiescence: every accepted connection has been reported closed
@@ -349,6 +421,27 @@ func c18Directory(c *Ctx) {
 	}); m != "" {
 		c.Inconclusive("GetTLSConfig: " + m)
 	}
+	// the strangers again, each followed by public certificates this directory's CA did issue (its server certificate,
+	// its client certificate - without the key): possession is only ever proven for the first certificate
+	var leaves []tls.Certificate
+	if td2c, ok := c18StrangerLeaf(tl); ok {
+		leaves = append(leaves, td2c)
+	}
+	if len(pki.ForeignCli.Certificate) > 0 {
+		leaves = append(leaves, pki.ForeignCli)
+	}
+	for li, leaf := range leaves {
+		for xi, extra := range [][]byte{pemDER(td.Cert()), pemDER(td.ClientCert())} {
+			if extra == nil {
+				continue
+			}
+			chain := leaf
+			chain.Certificate = [][]byte{leaf.Certificate[0], extra}
+			chain.Leaf = nil
+			strangers = append(strangers, c18Behaviour{fmt.Sprintf("stranger-leaf-%d-followed-by-%s", li, []string{"the-directorys-server-certificate", "the-directorys-client-certificate"}[xi]), "add",
+				c18TLSThenBind(&tls.Config{InsecureSkipVerify: true, Certificates: []tls.Certificate{chain}}, "add")})
+		}
+	}
 	c.Count("stranger_certificates_prepared", int64(len(strangers)))
 	// a conforming client exercises every handler of the directory inside its mTLS session - including a StartTLS
 	// extended request - between the offending rounds: whatever those handlers do must not weaken the gate
@@ -415,6 +508,17 @@ func c18Directory(c *Ctx) {
 	if !strings.Contains(logs, "conforming-0") {
 		c.Inconclusive("the test directory's handler log does not show even the conforming request: the log oracle is blind")
 	}
+}
+
+// c18StrangerLeaf: a client certificate with its key from a separate GetTLSConfig call (another CA).
+func c18StrangerLeaf(tl testdirectory.TestingT) (cert tls.Certificate, ok bool) {
+	catch(func() {
+		_, cc := testdirectory.GetTLSConfig(tl, testdirectory.WithMTLS(tl))
+		if cc != nil && len(cc.Certificates) == 1 {
+			cert, ok = cc.Certificates[0], true
+		}
+	})
+	return
 }
 
 type lockedWriter struct {
